@@ -695,7 +695,8 @@ var $makeSlice = (typ, length, capacity = length) => {
 
 var $structTypes = {};
 var $structType = (pkgPath, fields) => {
-    var typeKey = $mapArray(fields, f => { return f.name + "," + f.typ.id + "," + f.tag; }).join("$");
+    /* Unexported field names from different packages are different names. */
+    var typeKey = (fields.some(f => !f.exported) ? pkgPath : "") + "|" + $mapArray(fields, f => { return f.name + "," + f.typ.id + "," + f.tag; }).join("$");
     var typ = $structTypes[typeKey];
     if (typ === undefined) {
         var string = "struct { " + $mapArray(fields, f => {
